@@ -91,12 +91,14 @@ def check_marks(exc, data, backend, lineidx_cache):
         limit = len(data.encode("utf-8", "surrogatepass")) if (backend == "c" and isinstance(data, str)) else len(data)
         if not isinstance(pos, int) or pos < 0 or pos > limit:
             return "ReaderError.position %r outside raw input of length %d" % (pos, limit)
-        return None
-    if isinstance(exc, yaml.MarkedYAMLError):
+        if not any(k.endswith("mark") for k in getattr(exc, "__dict__", {})):
+            return None
+    if isinstance(exc, yaml.YAMLError):
         text = data if isinstance(data, str) else ref_marks.decode_like_reader(data)
-        for name in ("context_mark", "problem_mark"):
+        # every mark an error carries, under whatever attribute name and on whatever error class
+        for name in sorted(set(("context_mark", "problem_mark")) | {k for k in getattr(exc, "__dict__", {}) if k.endswith("mark")}):
             m = getattr(exc, name, None)
-            if m is None:
+            if m is None or not hasattr(m, "index"):
                 continue
             if text is None:
                 continue
